@@ -171,6 +171,12 @@ func (st *State) enterBlock(f *Frame) bool {
 			ms.entries = append(ms.entries, st.evalLocs(m, env)...)
 		}
 	}
+	// an arbitrary iteration: earlier iterations may have allocated objects
+	{
+		nt := st.fresh("top", SInt)
+		st.assume(app(">=", nt, st.allocTop))
+		st.allocTop = nt
+	}
 	st.havocLoop(f, body, ms)
 	if ms != nil {
 		st.modsets = append(st.modsets, ms)
